@@ -25,6 +25,17 @@ _UNREACHED = [
     '_ZN15CPPPreprocessor24handle_warning_directiveERK' + _S + _LOC,
     '_ZNK13CPPExpression6outputERSoiP8CPPScopeb',      # printing an expression in a diagnostic
 ]
+_REC = ['_ZN15CPPPreprocessor19skip_false_if_blockEb', '_ZN15CPPPreprocessor19handle_if_directiveERK' + _S + _LOC,
+        '_ZN15CPPPreprocessor22handle_ifdef_directiveERK' + _S + _LOC, '_ZN15CPPPreprocessor23handle_ifndef_directiveERK' + _S + _LOC]
+
+
+def _us(n):
+    d = dict(_STR_US)
+    for f in _REC:
+        d[f] = n
+    return d
+
+
 _STR_US = {'ll_strlen.0': 12, 'll_memcmp.0': 12, 'll_memcpy.0': 12, 'll_memmove.0': 12, 'll_memchr.0': 12}
 
 HARNESSES = [
@@ -42,8 +53,8 @@ HARNESSES = [
             '#elif 1/0, #elifdef D/U, #elifndef U/D, #else, #endif, #define X, #error e, text marker',
   'oracle': 'C11 6.10.1 conditional-stack machine over the same choices: the text lines reaching the driver, and the lines whose '
             '#define / #error handler runs, are exactly those in kept groups; whole file consumed',
-  'bounds': {'quick': {'defs': {'NLINES': 4}, 'unwind': 14, 'unwindset': _STR_US, 'cap': 600},
-             'thorough': {'defs': {'NLINES': 6}, 'unwind': 18, 'unwindset': _STR_US, 'cap': 3000}}},
+  'bounds': {'quick': {'defs': {'NLINES': 3}, 'unwind': 10, 'unwindset': _us(4), 'cap': 600},
+             'thorough': {'defs': {'NLINES': 6}, 'unwind': 16, 'unwindset': _us(7), 'cap': 3000}}},
 ]
 
 PROPERTY_INFO = {'C09': {'level': 'model_checking',
